@@ -32,7 +32,9 @@ THEOREMS = [
 RULE = ("2-D and 3-D cubes over cat/cat_date/datetime/text/binned/mr rows x columns (x table), missing "
         "categories at any payload position (forced 'missing before valid' on the table variable in half of the "
         "3-D cases), surveys whose column (and row) missingness depends on the previous variable's answer, "
-        "weighted (dyadic, incl. 0) or not, optional subtotal/difference insertions; non-trivial = some base cell "
+        "weighted (dyadic, incl. 0) or not, optional subtotal/difference insertions, typedef `order` differing from the "
+        "document order of the categories (35% of cat dims), `hide` element transforms on rows (35%) / columns (15%), "
+        "large samples (x1e4..3e6); non-trivial = some base cell "
         "has a finite index AND the unconditional row share differs from the share among valid column answers; "
         "distinct = (kinds, missing flags, raw weighted counts)")
 ASSUMPTIONS = ["Spec.cubeOf is the back end's tabulation (cross-checked against the Python tabulator per case)",
@@ -49,12 +51,12 @@ def gen_case(rng):
         tk = rng.choice(TABLE)
         vars_.append(su.gen_dim_var(rng, tk, "t", n_valid=rng.randint(1, 3),
                                     n_missing=rng.choice([0, 1, 1, 2, 2]),
-                                    missing_first=rng.random() < 0.6))
+                                    missing_first=rng.random() < 0.6, p_perm=0.35))
     rk, ck = rng.choice(ROWCOL), rng.choice(ROWCOL)
     vars_.append(su.gen_dim_var(rng, rk, "r", n_valid=rng.randint(1, 4), n_missing=rng.choice([0, 1, 1, 2]),
-                                missing_first=rng.random() < 0.5))
+                                missing_first=rng.random() < 0.5, p_perm=0.35))
     vars_.append(su.gen_dim_var(rng, ck, "c", n_valid=rng.randint(1, 4), n_missing=rng.choice([0, 1, 1, 2, 3]),
-                                missing_first=rng.random() < 0.5))
+                                missing_first=rng.random() < 0.5, p_perm=0.35))
     weighted = rng.random() < 0.6
     n_resp = rng.choice([0, 1, 3, 8, 15, 25, 40])
     survey = su.gen_survey(rng, vars_, n_resp, weighted)
@@ -63,8 +65,12 @@ def gen_case(rng):
         row_ins = su.gen_insertions(rng, vars_[-2], rng.randint(1, 2))
     if vars_[-1].kind in ("cat", "cat_date") and rng.random() < 0.35:
         col_ins = su.gen_insertions(rng, vars_[-1], rng.randint(1, 2))
+    # element transforms hiding rows / columns that may well have respondents: the baseline must not care
+    row_hide = su.gen_hide(rng, vars_[-2], 0.35)
+    col_hide = su.gen_hide(rng, vars_[-1], 0.15)
     return {"vars": [v.to_json() for v in vars_], "survey": gen.survey_to_json(survey), "weighted": weighted,
-            "row_ins": row_ins, "col_ins": col_ins, "scale": su.pick_scale(rng, 0.12)}
+            "row_ins": row_ins, "col_ins": col_ins, "scale": su.pick_scale(rng, 0.12),
+            "row_hide": row_hide, "col_hide": col_hide}
 
 
 def generate(ctx):
@@ -113,7 +119,12 @@ def evaluate(case, louts, ctx):
     resp = su.scale_response(gen.cube_response(vars_, survey, case["weighted"]), case.get("scale", 1))
     if case.get("scale", 1) > 1:
         ctx.count("large_sample_cases:%s" % ("weighted" if case["weighted"] else "unweighted"))
-    cube = Cube(resp, transforms=su.transforms_of(case["row_ins"], case["col_ins"]))
+    cube = Cube(resp, transforms=su.transforms_of(case["row_ins"], case["col_ins"], case.get("row_hide", ()),
+                                                  case.get("col_hide", ())))
+    if case.get("row_hide") or case.get("col_hide"):
+        ctx.count("cases_with_hidden_elements")
+    if any(v.typedef_perm is not None for v in vars_):
+        ctx.count("cases_with_typedef_order")
     nparts = su.n_partitions(vars_)
     parts = common.call_impl(lambda: len(cube.partitions))
     if parts != nparts:
@@ -134,7 +145,10 @@ def evaluate(case, louts, ctx):
             findings.append({"kind": "spec", "locus": _locus(vars_, k, "raises"),
                              "detail": "partition %d: column_index raises %r" % (k, impl)})
             continue
-        if len(ro) != len(rows) or len(co) != len(cols):
+        n_hid_r = len(set(case.get("row_hide", ())))
+        n_hid_c = len(set(case.get("col_hide", ())))
+        if (len(ro) != len(rows) - n_hid_r or len(co) != len(cols) - n_hid_c
+                or len(set(ro)) != len(ro) or len(set(co)) != len(co)):
             findings.append({"kind": "model", "locus": "column_index.shape",
                              "detail": "partition %d: order lengths %d,%d vs sides %d,%d" %
                                        (k, len(ro), len(co), len(rows), len(cols))})
@@ -212,12 +226,17 @@ def describe(case):
     return {"kinds": [v.kind for v in vars_], "missing_flags": [v.cat_missing for v in vars_],
             "n_respondents": len(survey), "weighted": case["weighted"],
             "n_row_ins": len(case["row_ins"]), "n_col_ins": len(case["col_ins"]),
+            "row_hide": case.get("row_hide", []), "col_hide": case.get("col_hide", []),
+            "typedef_perm": [v.typedef_perm for v in vars_], "scale": case.get("scale", 1),
             "first_respondents": case["survey"][:3]}
 
 
 def shrink_candidates(case):
     for c in su.shrink_survey(case):
         yield c
+    for key in ("row_hide", "col_hide"):
+        if case.get(key):
+            yield dict(case, **{key: []})
     if case["row_ins"]:
         yield dict(case, row_ins=[])
     if case["col_ins"]:
